@@ -23,7 +23,9 @@ for d in sorted(glob.glob('/tmp/seed-out/C??-[0-9]')):
         continue
     dst = os.path.join('/verif/seeded', name)
     os.makedirs(dst, exist_ok=True)
-    shutil.copy(os.path.join(d, 'patch.diff'), dst)
+    old_meta = json.load(open(os.path.join(dst, 'meta.json'))) if os.path.exists(os.path.join(dst, 'meta.json')) else {}
+    if not old_meta.get('note'):      # a patch re-based by hand onto a repaired tree is kept
+        shutil.copy(os.path.join(d, 'patch.diff'), dst)
     shutil.copy(os.path.join(d, 'demo.py'), dst)
     try:
         m = json.load(open(os.path.join(d, 'meta.json')))
@@ -39,5 +41,7 @@ for d in sorted(glob.glob('/tmp/seed-out/C??-[0-9]')):
                             'demo_unpatched_exit': c['demo_unpatched_exit'], 'demo_patched_exit': c['demo_patched_exit'], 'tests_with_patch': c['tests'], 'failing_tests_with_patch': c['failed']},
         'detection': old.get('detection', {}),
     }
+    if old.get('note'):
+        meta['note'] = old['note']
     json.dump(meta, open(os.path.join(dst, 'meta.json'), 'w'), indent=1)
     print('archived', name)
